@@ -160,6 +160,7 @@ type Config struct {
 	MinDelayMs int
 	MaxDelayMs int
 	Immediate  bool // scheduler off: calls are applied at once (race-stress mode)
+	Yields     bool // park goroutines at the in-memory yield points compiled into datamon with -tags verif
 	KeepEvents int  // how many events to keep in History (0 = all)
 }
 
@@ -171,6 +172,8 @@ type World struct {
 	Cfg Config
 
 	mu      sync.Mutex
+	yielder   *Client
+	yieldDisk *Disk
 	parked  []*Call
 	regSeq  int
 	live    int
@@ -228,7 +231,41 @@ func NewWorld(t *testing.T, wt, st *Tape, cfg Config) *World {
 		hash: sha256.New(), Progress: &atomic.Int64{}}
 	w.Stats.Faults = map[string]int{}
 	w.Stats.Probes = map[string]int{}
+	if cfg.Yields {
+		w.yielder = w.Client("~yield")
+		w.yieldDisk = &Disk{Label: "~yield", w: w, c: w.yielder, Scheduled: true}
+	}
 	return w
+}
+
+// current is the world of the run in progress (one at a time per worker process): the yield hook compiled into
+// datamon has no other way to find it.
+var current atomic.Pointer[World]
+
+// SetCurrent makes w the world the yield hook reports to (nil: none).
+func SetCurrent(w *World) { current.Store(w) }
+
+// YieldHook is installed as datamon's SimYield hook (build tag verif): an in-memory scheduling point.
+func YieldHook(site string) {
+	if w := current.Load(); w != nil {
+		w.Yield(site)
+	}
+}
+
+// Yield parks the calling goroutine like a store call that has no effect, so that the scheduler can let other
+// goroutines run between two purely in-memory steps (only in runs that ask for it: every yield is one more event).
+func (w *World) Yield(site string) {
+	if w.Cfg.Immediate || !w.Cfg.Yields {
+		return
+	}
+	if w.yielder == nil {
+		return
+	}
+	w.mu.Lock()
+	c, dk := w.yielder, w.yieldDisk
+	w.Stats.Probes["yield:"+site]++
+	w.mu.Unlock()
+	w.submit(&Call{Client: c, Disk: dk, Op: OpFsOther, Key: "yield:" + site, NoFault: true, fsApply: func() result { return result{} }})
 }
 
 // SetEpoch advances the bubble clock to a plausible production instant.
